@@ -208,3 +208,7 @@ def run(S):
     rule_mul(S, la)
     rule_rawv(S, la)
     rule_link(S, la)
+    # sortedness inside nodes and separators bounding their subtrees need every routing / rank / split-side decision
+    # to implement the one key order (shared with C18)
+    from checks.C18 import rule_cmp
+    rule_cmp(S)
